@@ -1,4 +1,4 @@
-(* IRI.Equals over the wide models (Model/IriEqU.iri_equals_f ufold_eqb ...) as the kernel of a normal form,
+(* IRI.Equals over the wide models (Model/IriEqU.iri_equals_f sfold_eqb ...) as the kernel of a normal form,
    generic in the URL parser, the query parser and the domain: whenever, on the domain, the string fast path
    implies the URL comparison (hypothesis [fast]; proved for url_classify_u / query_pairs_u in Proofs/IriUP.v),
    the whole comparison is equality of the normal forms.  The counterpart of Proofs/IriGenP.v with Unicode
@@ -128,19 +128,19 @@ Section GenU.
   Let qv (q : bytes) := group_pairs (qp q).
 
   Definition equals_g (i w : bytes) (cs : bool) : option bool :=
-    iri_equals_f ufold_eqb classify qv values_eq (paths_equal_f ufold_eqb) i w cs.
+    iri_equals_f sfold_eqb classify qv values_eq (paths_equal_f sfold_eqb) i w cs.
   Definition eqb_gu (i w : bytes) (cs : bool) : bool := match equals_g i w cs with Some b => b | None => false end.
 
   (* what irisEqual compares on two valid URLs *)
   Definition url_same_u (cs : bool) (u w : url) : Prop :=
-    (cs = true -> ucanon (u_scheme u) = ucanon (u_scheme w)) /\
-    ucanon (u_host u) = ucanon (u_host w) /\
-    ucanon (clean_url_path path_clean (u_path u)) = ucanon (clean_url_path path_clean (u_path w)) /\
+    (cs = true -> scanon (u_scheme u) = scanon (u_scheme w)) /\
+    scanon (u_host u) = scanon (u_host w) /\
+    scanon (clean_url_path path_clean (u_path u)) = scanon (clean_url_path path_clean (u_path w)) /\
     Permutation (qp (u_query u)) (qp (u_query w)).
 
   Definition nf_url_g (cs : bool) (u : url) : nform_u :=
-    (if cs then ucanon (u_scheme u) else [], ucanon (u_host u),
-     ucanon (clean_url_path path_clean (u_path u)), sort_pairs (qp (u_query u))).
+    (if cs then scanon (u_scheme u) else [], scanon (u_host u),
+     scanon (clean_url_path path_clean (u_path u)), sort_pairs (qp (u_query u))).
   Definition nf_gu (cs : bool) (s : bytes) : option nform_u :=
     match classify s with UValid u => Some (nf_url_g cs u) | _ => None end.
 
@@ -168,31 +168,31 @@ Section GenU.
 
   Lemma iris_equal_char_gu a b cs u w :
     classify a = UValid u -> classify b = UValid w ->
-    (iris_equal_f ufold_eqb classify qv values_eq (paths_equal_f ufold_eqb) a b cs = Some true <-> url_same_u cs u w).
+    (iris_equal_f sfold_eqb classify qv values_eq (paths_equal_f sfold_eqb) a b cs = Some true <-> url_same_u cs u w).
   Proof.
     intros Ha Hb. unfold iris_equal_f. rewrite Ha, Hb. unfold url_same_u, paths_equal_f.
     rewrite queries_equal_maps. unfold qv. split.
     - intros H. injection H as H1. rewrite !andb_true_iff in H1.
       destruct H1 as [[[Hs Hh] Hp] Hq]. split; [|split; [|split]].
-      + intros Hcs. rewrite Hcs in Hs. apply ufold_eqb_eq. exact Hs.
-      + apply ufold_eqb_eq. exact Hh.
-      + apply ufold_eqb_eq. exact Hp.
+      + intros Hcs. rewrite Hcs in Hs. apply sfold_eqb_eq. exact Hs.
+      + apply sfold_eqb_eq. exact Hh.
+      + apply sfold_eqb_eq. exact Hp.
       + apply maps_equal_char. exact Hq.
     - intros [Hs [Hh [Hp Hq]]]. f_equal. rewrite !andb_true_iff. split; [split; [split|]|].
-      + destruct cs; [apply ufold_eqb_eq; apply Hs; reflexivity|reflexivity].
-      + apply ufold_eqb_eq. exact Hh.
-      + apply ufold_eqb_eq. exact Hp.
+      + destruct cs; [apply sfold_eqb_eq; apply Hs; reflexivity|reflexivity].
+      + apply sfold_eqb_eq. exact Hh.
+      + apply sfold_eqb_eq. exact Hp.
       + apply maps_equal_char. exact Hq.
   Qed.
 
   Lemma eqb_valid_gu a b cs u w :
     classify a = UValid u -> classify b = UValid w ->
-    eqb_gu a b cs = true <-> (ufold_eqb (strip_for cs a) (strip_for cs b) = true \/ url_same_u cs u w).
+    eqb_gu a b cs = true <-> (sfold_eqb (strip_for cs a) (strip_for cs b) = true \/ url_same_u cs u w).
   Proof.
     intros Ha Hb. unfold eqb_gu, equals_g. rewrite iri_equals_f_unfold.
-    destruct (ufold_eqb (strip_for cs a) (strip_for cs b)); [tauto|].
+    destruct (sfold_eqb (strip_for cs a) (strip_for cs b)); [tauto|].
     pose proof (iris_equal_char_gu a b cs u w Ha Hb) as C.
-    destruct (iris_equal_f ufold_eqb classify qv values_eq (paths_equal_f ufold_eqb) a b cs) as [[|]|] eqn:E.
+    destruct (iris_equal_f sfold_eqb classify qv values_eq (paths_equal_f sfold_eqb) a b cs) as [[|]|] eqn:E.
     - split; [intros _; right; apply C; reflexivity|reflexivity].
     - split; [discriminate|]. intros [H|H]; [discriminate|]. apply C in H. discriminate.
     - split; [discriminate|]. intros [H|H]; [discriminate|]. apply C in H. discriminate.
@@ -200,7 +200,7 @@ Section GenU.
 
   (* reflexive and symmetric on ALL byte strings *)
   Lemma equals_refl_gu s cs : equals_g s s cs = Some true.
-  Proof. unfold equals_g. rewrite iri_equals_f_unfold, ufold_eqb_refl. reflexivity. Qed.
+  Proof. unfold equals_g. rewrite iri_equals_f_unfold, sfold_eqb_refl. reflexivity. Qed.
 
   Lemma maps_equal_sym l1 l2 : maps_equal (group_pairs l1) (group_pairs l2) = maps_equal (group_pairs l2) (group_pairs l1).
   Proof.
@@ -211,13 +211,13 @@ Section GenU.
 
   Lemma equals_sym_gu a b cs : equals_g a b cs = equals_g b a cs.
   Proof.
-    unfold equals_g. rewrite !iri_equals_f_unfold, (ufold_eqb_sym (strip_for cs a)).
-    destruct (ufold_eqb (strip_for cs b) (strip_for cs a)); [reflexivity|].
+    unfold equals_g. rewrite !iri_equals_f_unfold, (sfold_eqb_sym (strip_for cs a)).
+    destruct (sfold_eqb (strip_for cs b) (strip_for cs a)); [reflexivity|].
     unfold iris_equal_f. destruct (classify a) as [u| |], (classify b) as [w| |]; try reflexivity;
-      try (rewrite ufold_eqb_sym; reflexivity).
-    unfold paths_equal_f. rewrite (ufold_eqb_sym (u_host u)), (ufold_eqb_sym (clean_url_path path_clean (u_path u))).
+      try (rewrite sfold_eqb_sym; reflexivity).
+    unfold paths_equal_f. rewrite (sfold_eqb_sym (u_host u)), (sfold_eqb_sym (clean_url_path path_clean (u_path u))).
     rewrite !queries_equal_maps. unfold qv. rewrite (maps_equal_sym (qp (u_query u))).
-    destruct cs; [rewrite (ufold_eqb_sym (u_scheme u))|]; reflexivity.
+    destruct cs; [rewrite (sfold_eqb_sym (u_scheme u))|]; reflexivity.
   Qed.
 
   Lemma eqb_refl_gu a cs : eqb_gu a a cs = true.
@@ -230,7 +230,7 @@ Section GenU.
   Hypothesis dom_valid : forall a, dom a = true -> exists u, classify a = UValid u.
   Hypothesis fast : forall a b cs u w,
     dom a = true -> dom b = true -> classify a = UValid u -> classify b = UValid w ->
-    ufold_eqb (strip_for cs a) (strip_for cs b) = true -> url_same_u cs u w.
+    sfold_eqb (strip_for cs a) (strip_for cs b) = true -> url_same_u cs u w.
 
   Lemma eqb_url_same_gu a b cs u w :
     dom a = true -> dom b = true -> classify a = UValid u -> classify b = UValid w ->
